@@ -1,3 +1,5 @@
+import AquaVerif.Proofs.RunClosedRw
+import AquaVerif.Proofs.CropFull
 import AquaVerif.Proofs.Run
 import AquaVerif.Proofs.CanopyCover
 import AquaVerif.Proofs.RootDevelopment
@@ -217,5 +219,90 @@ theorem run_crop_envelope {F : Fn α} {T : TrigFn α} {cfg : RunCfg α} {s : Run
     -1 ≤ s.season ∧ CropInv F (paramsOf cfg s.season false) s.day ∧
       ∀ d ∈ s.daysRev, CropInv F d.P d.st ∧ CropInv F d.P d.r.state :=
   run_cropInv hr hs0 h0 hreset hOK
+
+
+/-! ### the crop catalogue satisfies the parameter premises (generated from `crop_params.py` + `crop.py` on every run) -/
+
+section catalogue
+variable {α : Type} [Field α] [LinearOrder α] [IsStrictOrderedRing α]
+
+/-- Every crop that `crop_params.py` defines now satisfies every raw-parameter premise of the C05
+theorems (root parameters well-formed, `0 < CC0`, `0 < CCx ≤ 1`, `0 ≤ CDC`,
+`CC0 ≤ CCx·(1 − CGC·dtMax)`, `0 < HIini < HI0`, `b_HI` switched off or ≥ 1, `0 ≤ 1 + dHI0/100`,
+ordered thresholds, `0 ≤ WPy ≤ 100`, `0 ≤ WP`, `Tbase ≤ Tupp`, …). -/
+theorem catalogue_crops_satisfy_parameter_premises :
+    ∀ c ∈ Aqua.Generated.cropFullTable, CropFullOK c := catalogue_ok
+
+/-- The three parameter premises that do NOT hold for the whole catalogue, with the exact list of
+crops violating each. -/
+theorem catalogue_premise_exceptions : ∀ c ∈ Aqua.Generated.cropFullTable,
+    (c.LeafyOK ↔ c.name ∉ ["SugarCane"]) ∧
+    (c.LagLe3 ↔ c.name ∉ ["PaddyRice", "PaddyRiceGDD", "localpaddy"]) ∧
+    (c.YldWCOK ↔ c.name ∉ ["PotatoLocalGDD", "localpaddy", "MaizeChampionGDD", "Cassava"]) :=
+  catalogue_exceptions
+
+theorem catalogue_root_parameters_wellformed (K : CropDerived α) :
+    ∀ c ∈ Aqua.Generated.cropFullTable, (c.rdCrop K).WF := catalogue_rdCrop_wf K
+
+theorem catalogue_reset_inside_envelope (K : CropDerived α) :
+    ∀ c ∈ Aqua.Generated.cropFullTable, ResetCropOK (c.cropParams K) := catalogue_resetCropOK K
+
+/-- One day (or one day's degree days) of unrestricted growth from CC0 stays below CCx for every
+catalogue crop: the premise `CcCropPre` of the canopy envelope, from the laws of exp alone. -/
+theorem catalogue_canopy_growth_step_below_ccx {F : Fn α} (hF : ExpOrdLaws F) (hG : ExpGeomLaw F)
+    (K : CropDerived α) :
+    ∀ c ∈ Aqua.Generated.cropFullTable, ∀ P : DayParams α, P.cx = c.cropX K → CcCropPre F P :=
+  catalogue_ccCropPre K hF hG
+
+/-- `run_crop_envelope` with `hreset` discharged: every season's crop is a catalogue crop. -/
+theorem run_crop_envelope_catalogue {F : Fn α} {T : TrigFn α} {cfg : RunCfg α} {s : RunState α}
+    (hr : RunReach F T cfg s) (hs0 : -1 ≤ cfg.clock.season0)
+    (h0 : CropInv F (paramsOf cfg cfg.clock.season0 false) cfg.init)
+    (hcrop : ∀ k, ∃ c ∈ Aqua.Generated.cropFullTable, ∃ K : CropDerived α,
+      cfg.seasonCrop k = c.cropParams K)
+    (hOK : ∀ d ∈ s.daysRev, DayCropOK F T d) :
+    -1 ≤ s.season ∧ CropInv F (paramsOf cfg s.season false) s.day ∧
+      ∀ d ∈ s.daysRev, CropInv F d.P d.st ∧ CropInv F d.P d.r.state :=
+  run_cropInv_catalogue hr hs0 h0 hcrop hOK
+end catalogue
+
+/-! ### run level, per-day premises discharged (`Proofs/RunClosed*.lean`) -/
+
+section closed
+variable {α : Type} [Field α] [LinearOrder α] [IsStrictOrderedRing α]
+
+/-- **Run level, closed.** The C05 envelope `CropEnv` (canopy, roots, harvest index, `0 ≤ B`) in
+every reachable state and at the start/end of every simulated day, `ccx_act ≤ CCx` on every day
+(rewatering days included), harvest index and biomass non-decreasing within a season — premises
+on configuration and weather only, plus the capillary-rise residual. -/
+theorem run_crop_envelope_closed {F : Fn α} {T : TrigFn α} {cfg : RunCfg α} {s : RunState α}
+    {A : α} (hC : CfgOK F T cfg) (hT : CfgTrOK F cfg A) (hJ : CfgRwOK F cfg)
+    (hW : WeatherOK F cfg) (hr : RunReach F T cfg s) (hR : ∀ d ∈ s.daysRev, ResidualW d) :
+    (-1 ≤ s.season ∧ CropEnv F (paramsOf cfg s.season false) s.day ∧ RunInvT cfg A s ∧
+        RunInvJ F cfg s) ∧
+      ∀ d ∈ s.daysRev, CropEnv F d.P d.st ∧ CropEnv F d.P d.r.state ∧
+        d.r.state.ccxAct ≤ d.P.cx.cc.ccx ∧ 0 ≤ d.r.flux.trPot ∧
+        (d.D.gs = true → d.st.hi ≤ d.r.state.hi ∧ d.st.biomass ≤ d.r.state.biomass ∧
+          0 ≤ d.r.flux.tr ∧ d.r.flux.tr ≤ d.r.flux.trPot) ∧
+        (0 ≤ d.st.ccxW ∧ d.st.ccxW ≤ d.P.cx.cc.ccx) :=
+  run_crop_closed hC hT hJ hW hr hR
+
+/-- the full `CropInv` (with `B ≤ B_ns`) needs `TrPot ≤ TrPot_ns` in addition — which is false
+inside the envelope (`RunClosedExample.trPot_gt_trPotNS`) and stays a hypothesis (`ResidualNS`) -/
+theorem run_crop_envelope_full_closed {F : Fn α} {T : TrigFn α} {cfg : RunCfg α}
+    {s : RunState α} {A : α} (hC : CfgOK F T cfg) (hT : CfgTrOK F cfg A) (hJ : CfgRwOK F cfg)
+    (hW : WeatherOK F cfg) (hr : RunReach F T cfg s) (hR : ∀ d ∈ s.daysRev, ResidualNS d) :
+    -1 ≤ s.season ∧ CropInv F (paramsOf cfg s.season false) s.day ∧
+      ∀ d ∈ s.daysRev, CropInv F d.P d.st ∧ CropInv F d.P d.r.state :=
+  run_cropInv_closed_rw hC hT hJ hW hr hR
+
+/-- same conclusion as `run_crop_envelope`, hypotheses `CfgOK`, `WeatherOK`, `Residual` -/
+theorem run_crop_envelope_of_residual {F : Fn α} {T : TrigFn α} {cfg : RunCfg α}
+    {s : RunState α} (hC : CfgOK F T cfg) (hW : WeatherOK F cfg) (hr : RunReach F T cfg s)
+    (hR : ∀ d ∈ s.daysRev, Residual d) :
+    -1 ≤ s.season ∧ CropInv F (paramsOf cfg s.season false) s.day ∧
+      ∀ d ∈ s.daysRev, CropInv F d.P d.st ∧ CropInv F d.P d.r.state :=
+  run_cropInv_closed hC hW hr hR
+end closed
 
 end Aqua.C05
